@@ -366,8 +366,15 @@ func coveredHelpers(c *core.Ctx, checked map[*ssa.Function]bool, isCand func(*ss
 	covered := map[*ssa.Function]bool{}
 	for changed := true; changed; {
 		changed = false
-		for _, g := range cands {
-			if covered[g] || len(refs[g]) == 0 || invoked[g.Name()] || g.Object() == nil || g.Object().Exported() {
+		// (a helper may be reached through helpers that are no candidates themselves: coverage is decided for every
+		// referenced function, and reported for the candidates)
+		var all []*ssa.Function
+		for g := range refs {
+			all = append(all, g)
+		}
+		sort.Slice(all, func(i, j int) bool { return all[i].Pos() < all[j].Pos() })
+		for _, g := range all {
+			if covered[g] || checked[g] || len(refs[g]) == 0 || invoked[g.Name()] || g.Object() == nil || g.Object().Exported() {
 				continue
 			}
 			all := true
